@@ -244,9 +244,14 @@ pub fn scenarios(tier: Tier) -> Vec<Scenario> {
         let name = format!("{:?}", p);
         let mut cfg = sched_cfg();
         cfg.post_points = true;
+        // wide scenarios: every non-default choice counts as a deviation
+        cfg.strict_deviations = p.routes.len() > 4;
         v.push(Scenario::new(name, cfg, bound, move || body(&p)));
     };
     use Kind::*;
+    // many routes, several shutdown callers, few deviations
+    add(P { routes: (0..8).map(|i| (if i % 2 == 0 { Callback } else { Crossbeam }, i % 3 == 0)).collect(), stop: Stop::Shutdown(4), racing_add: true, traffic: true }, if tier.is_quick() { 1 } else { 2 });
+    add(P { routes: (0..16).map(|i| (if i % 3 == 0 { Crossbeam } else { Callback }, i % 4 == 1)).collect(), stop: Stop::DropProxy, racing_add: false, traffic: true }, if tier.is_quick() { 1 } else { 2 });
     if tier.is_quick() {
         add(P { routes: vec![], stop: Stop::Shutdown(1), racing_add: false, traffic: false }, 3);
         add(P { routes: vec![(Callback, true)], stop: Stop::Shutdown(1), racing_add: false, traffic: false }, 3);
